@@ -1208,7 +1208,8 @@ func (sq *Queue) MarkQueueForRemoval() {
 	log.Log(log.SchedQueue).Info("marking managed queue for deletion",
 		zap.String("queue", sq.QueuePath))
 	sq.doRemoveQueue()
-	if len(sq.children) > 0 {
+	// only look at the copy: the children map itself is changed under the lock by the queue clean up
+	if len(children) > 0 {
 		for _, child := range children {
 			child.MarkQueueForRemoval()
 		}
